@@ -634,6 +634,13 @@ fn scenario(r: &mut Rng, sc: u64) -> Vec<Case12> {
     let extra = HEXD[r.below(16)] as char;
     let v = with_main(&|m: &mut Rec| m.sums[fpos].1.push(extra));
     out.push(Case12 { label: "hash-extended", recs: v, focus: vec![focus], ..base.clone() });
+    // a recorded value that means something to other tools (pkgsrc's checksum
+    // script skips "IGNORE") is, here, a hash that does not match
+    let token = *r.pick(&["IGNORE", "ignore", "NONE", "none", "SKIP", "0", "*", "-", "da39a3ee5e6b4b0d3255bfef95601890afd80709"]);
+    let v = with_main(&|m: &mut Rec| m.sums[fpos].1 = token.to_string());
+    if main.sums[fpos].1 != token {
+        out.push(Case12 { label: "hash-special-token", recs: v, focus: vec![focus], ..base.clone() });
+    }
     let len = content.len() as u64;
     let v = with_main(&|m: &mut Rec| m.size = Some(len + 1));
     out.push(Case12 { label: "size+1", recs: v, ..base.clone() });
@@ -727,12 +734,25 @@ fn scenario(r: &mut Rng, sc: u64) -> Vec<Case12> {
             out.push(mk(&two, &n3, &c3));
             out.push(mk(&two, &n3, &c2));
             out.push(mk(&two, &n2, &c2));
+            // the shortest recorded tail lacks an algorithm and the size that the
+            // longer ones record: it is still the entry that answers (missing)
+            let mut r1m = r1.clone();
+            r1m.sums.remove(fpos);
+            r1m.size = None;
+            // (a record without any line would not be recorded at all)
+            if !r1m.sums.is_empty() {
+                let mut allm = vec![r1m, r2.clone(), r3.clone()];
+                r.shuffle(&mut allm);
+                out.push(mk(&allm, &n2, &c2));
+                out.push(mk(&allm, &n3, &c3));
+                out.push(mk(&allm, &name, &content));
+            }
         }
     }
     out
 }
 
-const BOTH: [&str; 15] = [
+const BOTH: [&str; 16] = [
     "none",
     "flip-byte",
     "truncate",
@@ -742,6 +762,7 @@ const BOTH: [&str; 15] = [
     "hash-digit-last",
     "hash-prefix",
     "hash-extended",
+    "hash-special-token",
     "size+1",
     "size-1",
     "alg-removed",
